@@ -334,6 +334,35 @@ func c15Case(r *R) {
 			r.Nontrivial("case" + s)
 		}
 	}
+	// every Unicode scalar value, alone and between two ASCII letters: a table or arithmetic shortcut for a
+	// block of code points (Latin-1, Greek, Cyrillic ...) is wrong for the non-letters inside that block
+	// (round 7: C15-12, U+00D7 and U+00F7)
+	for ru := rune(0); ru <= unicode.MaxRune; ru++ {
+		if ru >= 0xD800 && ru <= 0xDFFF {
+			continue
+		}
+		lo, up := unicode.ToLower(ru), unicode.ToUpper(ru)
+		for _, c := range [...]struct{ s, lo, up, capd string }{
+			{string(ru), string(lo), string(up), string(up)},
+			{"a" + string(ru) + "B", "a" + string(lo) + "b", "A" + string(up) + "B", "A" + string(lo) + "b"},
+		} {
+			r.Eval("ToLower")
+			r.Eval("ToUpper")
+			r.Eval("Capitalize")
+			if g := gogu.ToLower(c.s); g != c.lo {
+				r.Bad("ToLower/differs-from-unicode-mapping/every-rune", fmt.Sprintf("ToLower(%q)", c.s), "got %q, want %q (U+%04X)", g, c.lo, ru)
+			}
+			if g := gogu.ToUpper(c.s); g != c.up {
+				r.Bad("ToUpper/differs-from-unicode-mapping/every-rune", fmt.Sprintf("ToUpper(%q)", c.s), "got %q, want %q (U+%04X)", g, c.up, ru)
+			}
+			if g := gogu.Capitalize(c.s); g != c.capd {
+				r.Bad("Capitalize/differs-from-unicode-mapping/every-rune", fmt.Sprintf("Capitalize(%q)", c.s), "got %q, want %q (U+%04X)", g, c.capd, ru)
+			}
+		}
+		if lo != up {
+			r.Nontrivial("caserune")
+		}
+	}
 }
 
 func alnum(s string) string {
